@@ -19,6 +19,8 @@ def run(P, R, L):
     _r12.ord8b_span_not_narrowed(P, R, L)
     R.clause("ORD-9b", "the write path loads the memtable pointer after make_room_for_write (which may rotate it): the group's batch is never inserted into the memtable that is being flushed")
     _r12.ord9b_memtable_loaded_after_make_room(P, R, L)
+    R.clause("PAIR-6 (own batch)", "inside the grouping loop the batch that is appended is the one of the queue entry the loop just yielded (not the leader's again): every follower that is acknowledged had its own batch applied")
+    _r12.pair6b_appended_batch_is_the_writers_own(P, R, L)
     R.clause("ORD-8b", "sequence range of the group (every acknowledged write is applied exactly once under its own sequence numbers)")
     R.clause("OWN-2", "set_prev_sequence_number is called only from apply_changes and recovery, at held sites; the field is "
              "written only inside VersionSet")
